@@ -487,6 +487,7 @@ func checkC10Tables(c *Ctx, r *Report) {
 		}
 		r.add("C10.c", "guardedby", fi.Key+":accept-iff-supported", "a verb is accepted only if it is in routeSupportedHttpVerbs", []string{fi.Key}, sites, viol)
 	}
+	checkVerbTestedAsWritten(c, r, "C10.c")
 	if fi := need(c, r, "C10.c", "definitions.IsValidRouteHttpVerb"); fi != nil {
 		a := newAtoms()
 		for _, ex := range exitsOf(fi.SSA) {
@@ -857,4 +858,51 @@ func checkUrlParamExtractors(c *Ctx, r *Report) {
 	}
 	o := r.add("C10.d", "setagree", "url-param-extractors:validator⊇routers", "every {name} the generated routers bind as a path parameter is a {name} the link validator requires a @Path for", []string{fi.Key, "routes.hbs#urlParamRegex"}, sites, viol)
 	o.NonTrivial = true
+}
+
+// checkVerbTestedAsWritten (C10.c / C09.g): the value tested against the verb table is the
+// @Method value itself - the same string Reduce hands to the generators, which spell it
+// into a method name (engine.GET) or a switch arm.
+func checkVerbTestedAsWritten(c *Ctx, r *Report, clause string) {
+	w := c.W
+	const fn = "(*core/validators.CommonValidator).validateMethodAttribute"
+	fi := need(c, r, clause, fn)
+	if fi == nil {
+		return
+	}
+	viol := ""
+	var sites []string
+	n := 0
+	for _, cl := range callsIn(fi.SSA, false, nameIs("definitions.IsValidRouteHttpVerb", "definitions.IsValidHttpVerb")) {
+		n++
+		sites = append(sites, w.pos(cl.Pos()))
+		a := sliceOf(cl.Common().Args[0])
+		if !a.hasFieldNamed("Value") || len(a.Calls) > 0 || len(a.Consts) > 0 {
+			viol = fmt.Sprintf("%s: the verb is tested on a transformed copy (%s) of the @Method value while ReceiverMeta.Reduce passes the value as written to the generators: a spelling accepted here (e.g. `get`) becomes `engine.get(` in the gin/echo routers, which does not compile, and has no arm in the 3.1 emitter", w.pos(cl.Pos()), a)
+		}
+	}
+	if n < 1 {
+		viol = "validateMethodAttribute no longer consults the verb tables"
+	}
+	r.add(clause, "fieldflow", fn+":verb-as-written", "the @Method value is validated exactly as it will be emitted", []string{fn}, sites, viol)
+	// and Reduce emits it as written
+	const rred = "(core/metadata.ReceiverMeta).Reduce"
+	if ri := need(c, r, clause, rred); ri != nil {
+		rm := w.lookupType("definitions", "RouteMetadata")
+		v2 := ""
+		var s2 []string
+		for _, sk := range w.fieldSinks(ri, rm, "HttpVerb") {
+			s2 = append(s2, w.pos(sk.Pos))
+			a := w.exprAtoms(ri, sk.Expr)
+			for cl := range a.Calls {
+				if strings.HasPrefix(cl, "strings.") || strings.HasPrefix(cl, "inlined:strings.") {
+					v2 = fmt.Sprintf("%s: Reduce transforms the verb (%s): validation and emission must agree on the spelling", w.pos(sk.Pos), cl)
+				}
+			}
+		}
+		if len(s2) == 0 {
+			v2 = "no RouteMetadata.HttpVerb sink in ReceiverMeta.Reduce"
+		}
+		r.add(clause, "fieldflow", rred+":verb-as-written", "the emitted verb is the annotation value", []string{rred}, s2, v2)
+	}
 }
